@@ -18,7 +18,7 @@ def sh(cmd, cwd=None, timeout=3600):
     return p.returncode, p.stdout + p.stderr
 
 def main():
-    dirs = sys.argv[1:] or sorted(d for d in glob.glob("/verif/seeded/C*-*") if os.path.isdir(d))
+    dirs = [os.path.abspath(d) for d in sys.argv[1:]] or sorted(d for d in glob.glob("/verif/seeded/C*-*") if os.path.isdir(d))
     rows = []
     for d in dirs:
         name = os.path.basename(d)
